@@ -329,7 +329,7 @@ struct Engine : public vf::Engine {
                 else if (x < 88) { o.kind = H_CLEAR; o.a = (int64_t)w.below(4); }
                 else if (x < 96) { o.kind = H_QUERY; o.a = (int64_t)w.below(4); o.b = (int64_t)w.chance(1, 3); }
                 else if (x < 97) { o.kind = H_MODE; o.a = (int64_t)w.below(3); }
-                else if (!faultFree) { if (w.chance(1, 2)) { o.kind = H_BADFREE; o.a = w.range(1, 4); o.b = (int64_t)w.below(3); o.c = (int64_t)w.below((uint64_t)nSlots); } else { o.kind = H_FAULT; unsigned z = (unsigned)w.below(5); o.a = z < 2 ? 0 : (z < 4 ? 2 : 3); o.b = (int64_t)w.below(3); } }      // allocator returns NULL, or the platform realloc fails: the old block keeps its period, stage and number
+                else if (!faultFree) { if (w.chance(1, 2)) { o.kind = H_BADFREE; o.a = w.range(1, 4); o.b = (int64_t)w.below(3); o.c = (int64_t)w.below((uint64_t)nSlots); } else { o.kind = H_FAULT; unsigned z = (unsigned)w.below(5); o.a = z < 2 ? 0 : (z < 4 ? 2 : 3); o.b = (int64_t)w.below(3); if (o.a == 0 && w.chance(1, 3)) o.c = w.range(1, 3); } }      // allocator returns NULL, or the platform realloc fails: the old block keeps its period, stage and number
                 else o.kind = H_QUERY;
             } else if (snd) {
                 if (x < 35) { o.kind = H_ALLOC; o.a = (int64_t)w.below((uint64_t)nSlots); o.b = (int64_t)w.below(3); o.c = (int64_t)boundarySize(w); o.phase = 2; o.s = siteFile((int)w.below(N_SITES)); o.s2 = w.chance(1, 3) ? "nothrow" : ""; }
@@ -341,7 +341,10 @@ struct Engine : public vf::Engine {
                 else if (x < 88) { o.kind = H_FREE; o.a = (int64_t)w.below((uint64_t)nSlots); o.c = w.chance(1, 3) ? w.range(1, 4) : 0; }
                 else if (x < 91) { o.kind = H_QUERY; o.a = (int64_t)w.below(4); }
                 else if (x < 92) { o.kind = H_MODE; o.a = (int64_t)w.below(3); }
-                else if (!faultFree) { o.kind = H_FAULT; o.a = (int64_t)w.below(4); o.b = o.a == 3 && w.chance(2, 3) ? 2 : (int64_t)w.below(3); }
+                else if (!faultFree && w.chance(1, 6)) {      // the library's accounting decorator over an allocator whose next request or the one after fails (the decorator asks twice per block)
+                    Op fo(H_FAULT); fo.d = o.d; fo.a = 0; fo.b = (int64_t)w.below(3); fo.c = (int64_t)w.below(3); H.ops.push_back(fo);
+                    o.kind = H_WRAP; o.a = fo.b; o.b = 6; }
+                else if (!faultFree) { o.kind = H_FAULT; o.a = (int64_t)w.below(4); o.b = o.a == 3 && w.chance(2, 3) ? 2 : (int64_t)w.below(3); if (o.a == 0 && w.chance(1, 3)) o.c = w.range(1, 3); }
                 else o.kind = H_QUERY;
             } else if (mis) {
                 if (x < 30) { o.kind = H_ALLOC; o.a = (int64_t)w.below((uint64_t)nSlots); o.b = (int64_t)w.below(3); o.c = w.chance(3, 4) ? w.range(0, 64) : w.range(0, 600); if (w.chance(1, 15)) o.c = w.range(4000, 20000); o.phase = (int)w.below(3); o.s = siteFile((int)w.below(N_SITES)); }
@@ -601,7 +604,7 @@ struct Engine : public vf::Engine {
                 // (a calloc whose product does not fit is refused before it becomes an allocation: neither the countdown nor the failable allocator gets to see it)
                 if (route == 2 && fam == 2 && !overflowingCalloc) { if (cLevelFails(W)) { expectNull = true; cOom = true; } }   // the countdown runs before the allocator is consulted
                 if (alloc == &failable && !cOom && !overflowingCalloc) expectNull = modelFailable(W, file, line) || expectNull;
-                for (size_t k = 0; k < W.wrappers.size(); k++) if (W.wrappers[k] == alloc->actualAllocator() || W.wrappers[k] == alloc) { if (W.wrappers[k]->failIn == 0) expectNull = true; }
+                for (size_t k = 0; k < W.wrappers.size(); k++) if (W.wrappers[k] == alloc->actualAllocator() || W.wrappers[k] == alloc) { if (W.wrappers[k]->failIn == 0) expectNull = true; else if (W.wrappers[k]->failIn > 0 && !W.acct.empty()) lenient = true; }      // (an accounting decorator asks the allocator underneath twice per block: which of the two requests fails is its business, the outcome must be clean either way)
                 bool sepNode = GUARD == 0 || route == 1 || (route == 2 && fam == 2);      // the node is a separate allocation: no-guard build, asked for, or the malloc family
                 SimAllocator* nodeFails = 0; long userBalance = 0;
                 for (size_t k = 0; k < W.wrappers.size(); k++) if (W.wrappers[k] == alloc && W.wrappers[k]->failNodeIn == 0 && sepNode && !expectNull) { nodeFails = W.wrappers[k]; userBalance = nodeFails->allocs - nodeFails->frees; }
@@ -692,7 +695,9 @@ struct Engine : public vf::Engine {
                 size_t size = o.c == -1 ? S.size : (size_t)o.c; size_t overhead = GUARD + 8 + sizeof(MemoryLeakDetectorNode);
                 bool tooBig = size > ((size_t)48 << 20) || size > SIZE_MAX - overhead;
                 bool expectNull = tooBig || (S.route == 2 && W.oomAll); HEAP.firedNull = 0;      // (simulated out of memory: a reallocation is an allocation)
-                bool oomRealloc = S.route == 2 && W.oomAll && !tooBig;      // an armed platform fault counts once the platform was really asked (which platform calls a reallocation makes is the detector's business)
+                bool oomRealloc = S.route == 2 && W.oomAll && !tooBig;
+                bool lenientR = false;      // an accounting decorator over an allocator with a failure pending: whether this reallocation's requests reach the failing one is the decorator's business
+                if (!W.acct.empty()) for (size_t k = 0; k < W.wrappers.size(); k++) if (W.wrappers[k]->failIn >= 0) lenientR = true;      // an armed platform fault counts once the platform was really asked (which platform calls a reallocation makes is the detector's business)
                 TestMemoryAllocator* fa = S.route == 2 ? modelFor(W, 2) : W.famAllocator[2];
                 int cat = S.tracked ? expectedCategory(W, S, fa) : 0;
                 SimAllocator* nodeFails = 0;
@@ -708,7 +713,7 @@ struct Engine : public vf::Engine {
                 if (size > SIZE_MAX - 256 && cat != -1 && CTX.reports.empty() && !np) probe("oversize_realloc_refused_before_lookup");
                 else expectReports(W, oi, on, cat);
                 if (!np) {
-                    if (!expectNull && !HEAP.undersized) fail(W, "C05", "spurious_null", sg("op", on), sfmt("op %zu: realloc to %zu returned NULL although nothing failed", oi, size));
+                    if (!expectNull && !HEAP.undersized && !lenientR) fail(W, "C05", "spurious_null", sg("op", on), sfmt("op %zu: realloc to %zu returned NULL although nothing failed", oi, size));
                     // a failed realloc must leave the old block valid and still tracked
                     probe("failed_realloc");
                     { size_t want = 0; for (int i = 0; i < N_SLOTS; i++) if (W.slots[i].live && W.slots[i].tracked) want++;
@@ -831,11 +836,13 @@ struct Engine : public vf::Engine {
             case H_FAULT:
                 if (d.pi("fault_free")) break;
                 if (o.a == 0 || o.a == 3) { // next allocator-level allocation (0) or bookkeeping-node allocation (3) of a family returns NULL: needs a SimAllocator in place
-                    SimAllocator* sa = new (::malloc(sizeof(SimAllocator))) SimAllocator(W.famAllocator[o.b % 3]->name(), W.famAllocator[o.b % 3]->alloc_name(), W.famAllocator[o.b % 3]->free_name());
-                    if (o.a == 3) sa->failNodeIn = 0; else sa->failIn = 0;
+                    TestMemoryAllocator* like = modelActual(W, W.famAllocator[o.b % 3]);      // the failing allocator is of the family's type (a decorator on top has a name of its own)
+                    SimAllocator* sa = new (::malloc(sizeof(SimAllocator))) SimAllocator(like->name(), like->alloc_name(), like->free_name());
+                    if (o.a == 3) sa->failNodeIn = 0; else sa->failIn = o.c > 0 && o.c < 4 ? (long)o.c : 0;      // c: the allocator's (c+1)-th allocation from now fails (an accounting decorator on top asks twice per block)
                     W.wrappers.push_back(sa); W.famAllocator[o.b % 3] = sa;
                     if (o.b % 3 == 0) setCurrentNewAllocator(sa); else if (o.b % 3 == 1) setCurrentNewArrayAllocator(sa); else setCurrentMallocAllocator(sa);
                 }
+                else if (!W.acct.empty()) break;      // (the accountant of an accounting decorator allocates through the default allocators, whose answer to a platform NULL is the known finding C05-nothrow-new-terminates: not mixed)
                 else if (o.a == 1) HEAP.failMallocIn = o.b;
                 else HEAP.failReallocIn = 0;
                 break;
@@ -920,6 +927,7 @@ struct Engine : public vf::Engine {
         // ---- end of history: everything still live can be released without a report (C05: still tracked and valid)
         CTX.reports.clear();
         det.disableAllocationTypeChecking();
+        HEAP.failMallocIn = HEAP.failReallocIn = -1;      // a platform fault that no operation of the history consumed is not for the clean-up
         for (int i = 0; i < N_SLOTS; i++) if (W.slots[i].live && W.slots[i].p && W.slots[i].tracked && !W.slots[i].guardDirty) {
             MBlock& S = W.slots[i];
             if (S.route == 2) { if (S.family == 0) ::operator delete(S.p); else if (S.family == 1) ::operator delete[](S.p); else cpputest_free_location(S.p, "end", 1); }
